@@ -118,6 +118,9 @@ pub enum CacheOp {
     Sorted(crate::world::Req),
     Deps(u32),
     Available(u32),
+    /// issue get_or_cache_candidates(name), poll it this many times, then drop it unfinished (a caller that
+    /// loses interest while its request is pending)
+    AbandonCandidates(u32, u32),
 }
 
 #[derive(Clone, Debug, PartialEq, Serialize, Deserialize, Default)]
